@@ -134,3 +134,20 @@ pub fn thick_segment_box(start: [Point; 4], end: [Point; 4]) -> (bool, Line, Lin
         segment.edges_bounding_box(),
     )
 }
+
+/// `Scanline::try_extend` on two scanlines of one row given as column ranges (`None` = the empty
+/// scanline `Scanline::new_empty`): whether the first was extended, and its columns afterwards.
+pub fn scanline_try_extend(
+    y: i32,
+    first: Option<Range<i32>>,
+    second: Option<Range<i32>>,
+) -> (bool, Range<i32>) {
+    let make = |r: Option<Range<i32>>| match r {
+        Some(r) => Scanline::new(y, r),
+        None => Scanline::new_empty(y),
+    };
+    let mut first = make(first);
+    let second = make(second);
+    let extended = first.try_extend(&second);
+    (extended, first.x)
+}
